@@ -18,7 +18,8 @@ the real generator, every command / progress / sleep object); the specification 
   `commissioning_addresses` (distinct / permitted / not in use / none in a dry run),
   `commissioning_count` (every participant gets an address while permitted addresses remain),
   `commissioning_others` (non-participants keep their address), `commissioning_dry` (a dry run changes no
-  short address), `commissioning_raise` + `unconfirmed_verify_raises` (ProgramShortAddressFailure), `commissioning_bound` (command bound),
+  short address), `commissioning_raise` + `unconfirmed_verify_raises` (ProgramShortAddressFailure),
+  `commissioning_bound` (command bound),
   `commissioning_holds` (single-round runs: the participants hold exactly the addresses handed out),
   `commissioning_terminates` (the model's round budget is not exhausted once the participants' draws of some
   round are pairwise distinct);
@@ -390,9 +391,8 @@ example : FN.findNext [0xffffff] 25 1 0xffffff = .found 0xffffff := by decide
 example : FN.findNext [] 25 0 0xffffff = .none := by decide
 
 
-/-- four units, one already addressed (0), two of the others clash on 1000 in the first round -/
-def exBus : Bus :=
-  [{ draws := [5] }, { draws := [1000, 777] }, { short := some 0, draws := [9] }, { draws := [1000, 778] }]
+/- `exBus` (Proofs/GearSeqC07k.lean): four units, one already addressed (0), two of the others clash on 1000
+in the first round -/
 
 example : WF (view exBus) := by
   intro v hv
